@@ -91,6 +91,21 @@ pub fn set_calling_process(args: &[String]) {
     }
 }
 
+/// Verification hook driver: pin the calling process (the command line given as words;
+/// anything `describe_calling_process` does not recognise gives `CallingProcess::None`).
+#[cfg(dandavison_delta_verif)]
+pub fn verif_force_calling_process(args: &[String]) {
+    let result = match describe_calling_process(args) {
+        ProcessArgs::Args(result) => result,
+        _ => CallingProcess::None,
+    };
+    let (caller_mutex, determine_done) = &**CALLER;
+    let mut caller = caller_mutex.lock().unwrap();
+    *caller = result;
+    CALLER_INFO_SOURCE.store(CALLER_KNOWN, DELTA_ATOMIC_ORDERING);
+    determine_done.notify_all();
+}
+
 #[cfg(not(test))]
 pub fn calling_process() -> MutexGuard<'static, CallingProcess> {
     let (caller_mutex, determine_done) = &**CALLER;
